@@ -225,7 +225,29 @@ def c04(k, ctx):
                        "tolerances (Arith.tla) follow the error model K*d*eps*(1+e^|y|) for phi/tanh inside the working range |y| <= 30 (f64) / 12 (f32)"]
 
 
-PIPELINES = {"C04": c04, "C05": c05, "C01": c01, "C10": c10, "C08": c08, "C11": c11, "C02": c02, "C09": c09, "C17": c17}
+def c03(k, ctx):
+    ctx.rule = ("Decode cases: the real generic flooding / horizontal-layered decoder with the checker-supplied exact integer min-sum (value types scaled x3/x5/x7) on forests and "
+                "loopy graphs up to 6x12, integer LLRs in +-2..+-40, limits {0,1,2,3,4,6,10}; Post cases: Phif64/Tanhf64/Phif32/Tanhf32 forced to iterate diameter(+3) times on "
+                "random forests (<= 8 checks, <= 12 variables) vs brute-force posterior; non-trivial = distinct Decode cases that ran at least one iteration, plus all Post cases")
+    ctx.tlc_mc("MC_BP", "MC_BP_thorough.cfg" if ctx.thorough else "MC_BP.cfg")       # C03Exact: tropical posterior on forests
+    ctx.vh("gen", "i2s")
+    recs, rej = ctx.validate("Trace_C03", timeout=3000)
+    ctx.require_events("Decode", "Post")
+    for r in recs:
+        if r["o"] != "ok":
+            continue
+        if r["e"] == "Post" or r["iters"] > 0:
+            ctx.nontrivial_keys.add(k.key(r.get("arith", ""), r["sched"], r["rows"], r.get("llrs", r.get("llr_m")), r.get("limit", r.get("its"))))
+    ctx.extra["decode_verdicts"] = {v: sum(1 for r in recs if r["e"] == "Decode" and r.get("verdict") == v) for v in ("ok", "err")}
+    ctx.extra["posterior_cases_in_working_range"] = sum(1 for r in recs if r["e"] == "Post" and r["o"] == "ok" and max(r["refc"]) <= (9 if r["f32"] else 25))
+    ctx.extra["max_posterior_err_cb"] = {a: max([max(r["err_cb"]) for r in recs if r["e"] == "Post" and r["o"] == "ok" and r["arith"] == a] or [None])
+                                         for a in ("Phif64", "Tanhf64", "Phif32", "Tanhf32")}
+    ctx.samples = [k.sample_case(recs, 5), k.sample_case(recs, recs[-1]["i"])]
+    ctx.assumptions = ["TLC 1.8 + Json/IOUtils", "IntMinSum in harness/src/c03.rs implements MinSum.tla (its own calls are what the real decoders route; a routing error changes results or trips the scaling assertions)",
+                       "posterior reference: brute force over all codewords with log-sum-exp in f64 (harness oracle); tolerance in Trace_C03.tla"]
+
+
+PIPELINES = {"C03": c03, "C04": c04, "C05": c05, "C01": c01, "C10": c10, "C08": c08, "C11": c11, "C02": c02, "C09": c09, "C17": c17}
 NOT_YET = {}
 
 
